@@ -2,4 +2,4 @@ import os, sys
 sys.path.insert(0, os.path.dirname(os.path.dirname(os.path.abspath(__file__))))
 from loopfam import drv, startfault, RULE, TRUSTED, ASSUME, GENS
 
-PROP = dict(gens=GENS, drivers=[drv("stream", n=60), drv("fault", n=60), drv("client", n=40), drv("multi", n=30), drv("stale", n=20), drv("fault", n=40, tags="verif poll_opt"), startfault(60), startfault(40, tags="verif poll_opt")], sites=['^loop-stuck$', '^fd-', '^engine-start$'], rule=RULE, trusted=TRUSTED, assumptions=ASSUME)
+PROP = dict(gens=GENS, drivers=[drv("stream", n=60), drv("fault", n=60), drv("client", n=40), drv("multi", n=30), drv("stale", n=20), drv("fault", n=40, tags="verif poll_opt"), startfault(80), startfault(56, tags="verif poll_opt")], sites=['^loop-stuck$', '^fd-', '^engine-start$'], rule=RULE, trusted=TRUSTED, assumptions=ASSUME)
